@@ -277,15 +277,22 @@ package keeper
 //@ ensures [C10,C19] entries-stored-under-the-auction-and-their-bidder: result == nil ==> forall(j, int, 0 <= j && j < len(allowedBidders) ==> AllowedBidder[auctionId][addrOf(allowedBidders[j].Bidder)].present)
 //@ ensures [C19,C10] other-auctions-allow-lists-untouched: forall(x, uint64, forall(ad, Addr, x != auctionId ==> AllowedBidder[x][ad] == old(AllowedBidder[x][ad])))
 //@ ensures [C10] nobody-is-removed: forall(x, uint64, forall(ad, Addr, old(AllowedBidder[x][ad]).present ==> AllowedBidder[x][ad].present))
-//@ ensures [C17] hook-fired-once-before-any-write: result == nil && k.hooks != nil ==> hookN("BeforeAllowedBiddersAdded") == old(hookN("BeforeAllowedBiddersAdded")) + 1 && hookArgsAre("BeforeAllowedBiddersAdded", allowedBidders)
+//@ ensures [C17] hook-fired-once-before-any-write: result == nil && k.hooks != nil ==> hookN("BeforeAllowedBiddersAdded") == old(hookN("BeforeAllowedBiddersAdded")) + 1
+//@ ensures [C17] the-listeners-are-told-what-is-stored: result == nil && k.hooks != nil ==> let(h, hookArg("BeforeAllowedBiddersAdded", "allowedBidders"), len(h) == len(allowedBidders) && forall(j, int, 0 <= j && j < len(h) ==> h[j].AuctionId == auctionId && canonAddr(h[j].Bidder) && addrOf(h[j].Bidder) == addrOf(allowedBidders[j].Bidder) && h[j].MaxBidAmount == allowedBidders[j].MaxBidAmount && AllowedBidder[auctionId][addrOf(h[j].Bidder)].present && AllowedBidder[auctionId][addrOf(h[j].Bidder)].AuctionId == h[j].AuctionId && AllowedBidder[auctionId][addrOf(h[j].Bidder)].Bidder == h[j].Bidder))
 //@ ensures [C17] veto-aborts-before-any-write: !HookOK ==> result != nil && AllowedBidder == old(AllowedBidder)
 //@ ensures [C10,C19,C01,C02,C03,C04,C05,C06,C07,C08,C09,C11,C12,C13,C16] preserves-the-invariant: InvAllowed()
 //@ ensures [C15] entries-record-the-auction-they-are-stored-under: InvAllowedKey()
-//@ loop 0 invariant 0 <= idx && idx <= len(allowedBidders)
-//@ loop 0 invariant InvAllowed() && InvAllowedKey() && HookOK
-//@ loop 0 invariant forall(j, int, 0 <= j && j < idx ==> validAddr(allowedBidders[j].Bidder) && allowedBidders[j].MaxBidAmount > 0 && allowedBidders[j].MaxBidAmount <= Auction[auctionId].SellingCoin.Amount && AllowedBidder[auctionId][addrOf(allowedBidders[j].Bidder)].present)
-//@ loop 0 invariant forall(x, uint64, forall(ad, Addr, (x != auctionId ==> AllowedBidder[x][ad] == old(AllowedBidder[x][ad])) && (old(AllowedBidder[x][ad]).present ==> AllowedBidder[x][ad].present)))
-//@ loop 0 invariant hookN("BeforeAllowedBiddersAdded") == old(hookN("BeforeAllowedBiddersAdded")) + ite(k.hooks != nil, 1, 0) && (k.hooks != nil ==> hookArgsAre("BeforeAllowedBiddersAdded", allowedBidders))
+//@ loop 0 invariant 0 <= idx && idx <= len(allowedBidders) && len(entries) == idx
+//@ loop 0 invariant AllowedBidder == old(AllowedBidder) && HookN == old(HookN) && HookT == old(HookT) && SetT == old(SetT) && HookOK == old(HookOK)
+//@ loop 0 invariant forall(j, int, 0 <= j && j < idx ==> validAddr(allowedBidders[j].Bidder) && allowedBidders[j].MaxBidAmount > 0 && allowedBidders[j].MaxBidAmount <= Auction[auctionId].SellingCoin.Amount)
+//@ loop 0 invariant forall(j, int, 0 <= j && j < idx ==> entries[j].AuctionId == auctionId && canonAddr(entries[j].Bidder) && addrOf(entries[j].Bidder) == addrOf(allowedBidders[j].Bidder) && entries[j].MaxBidAmount == allowedBidders[j].MaxBidAmount)
+//@ loop 1 invariant 0 <= idx && idx <= len(entries) && len(entries) == len(allowedBidders)
+//@ loop 1 invariant InvAllowed() && InvAllowedKey() && HookOK
+//@ loop 1 invariant forall(j, int, 0 <= j && j < len(entries) ==> validAddr(allowedBidders[j].Bidder) && allowedBidders[j].MaxBidAmount > 0 && allowedBidders[j].MaxBidAmount <= Auction[auctionId].SellingCoin.Amount)
+//@ loop 1 invariant forall(j, int, 0 <= j && j < len(entries) ==> entries[j].AuctionId == auctionId && canonAddr(entries[j].Bidder) && addrOf(entries[j].Bidder) == addrOf(allowedBidders[j].Bidder) && entries[j].MaxBidAmount == allowedBidders[j].MaxBidAmount)
+//@ loop 1 invariant forall(j, int, 0 <= j && j < idx ==> AllowedBidder[auctionId][addrOf(entries[j].Bidder)].present && AllowedBidder[auctionId][addrOf(entries[j].Bidder)].AuctionId == auctionId && AllowedBidder[auctionId][addrOf(entries[j].Bidder)].Bidder == entries[j].Bidder)
+//@ loop 1 invariant forall(x, uint64, forall(ad, Addr, (x != auctionId ==> AllowedBidder[x][ad] == old(AllowedBidder[x][ad])) && (old(AllowedBidder[x][ad]).present ==> AllowedBidder[x][ad].present)))
+//@ loop 1 invariant hookN("BeforeAllowedBiddersAdded") == old(hookN("BeforeAllowedBiddersAdded")) + ite(k.hooks != nil, 1, 0) && (k.hooks != nil ==> hookArgsAre("BeforeAllowedBiddersAdded", entries))
 
 //@ func (Keeper).UpdateAllowedBidder
 //@ requires Inv() && InvAllowedKey()
